@@ -62,14 +62,25 @@ Fixpoint safe (e : expr) : bool :=
   end.
 Definition safe_seq := safe_seq_with safe.
 
+(* `return true` / `return false` are compiled by name: the names must denote the predeclared constants *)
+Definition ret_wf (e : expr) : bool :=
+  if ident_name e =? name_true then match e with EConst _ (CBool true) => true | _ => false end
+  else if ident_name e =? name_false then match e with EConst _ (CBool false) => true | _ => false end
+  else true.
+
+Fixpoint nodup_names (l : list (Z * ty)) : bool :=
+  match l with [] => true | (x, _) :: l' => negb (existsb (fun '(y, _) => x =? y) l') && nodup_names l' end.
+
 Definition safe_opt (o : option expr) : bool := match o with None => true | Some e => safe e end.
 
 Fixpoint safe_stmt (s : stmt) : bool :=
   let fix all (l : list stmt) : bool := match l with [] => true | x :: l' => safe_stmt x && all l' end in
   let opt (o : option stmt) : bool := match o with None => true | Some x => safe_stmt x end in
   match s with
-  | SReturn res => forallb safe res
-  | SAssign _ _ _ rhs => safe rhs
+  | SReturn res => forallb safe res && forallb ret_wf res
+  | SAssign tok lhs _ rhs =>
+      (* plain assignment of a tuple (a, b = f()) is outside the proved subset; a, b := f() is inside *)
+      safe rhs && match tok with AAssign => (match lhs with [_] => true | _ => false end) | _ => negb (match lhs with [] => true | _ => false end) end
   | SIncDec _ _ | SBreak | SBad => true
   | SIf init c t e => opt init && safe c && all t && opt e
   | SFor init c post body => opt init && safe_opt c && opt post && all body
